@@ -697,7 +697,7 @@ fn measure(depths: &[usize]) {
     };
     for &n in depths {
         // reader
-        for dir in ["car", "cdr", "dot", "vec", "quote", "expr-app"] {
+        for dir in ["car", "cdr", "dot", "vec", "quote", "expr-app", "cdr-of-pairs", "cdr-dotted"] {
             let text = nest_text(dir, n);
             let tokens = lex::scan(&text).expect("lex");
             let mut cur = tokens.iter().peekable();
